@@ -26,6 +26,9 @@ class Chains:
         self.rnd = random.Random(seed)
         self.iindex = iindex
         self.rec = Recorder(iindex, column_stack)
+        # classes the comparison twins of op_eq are built with: the chain's own class and, for a caller's subclass, the
+        # plain base class as well (== is about shape, common value and content, whoever's class built the object)
+        self.twin_classes = [iindex] + [b for b in iindex.__mro__[1:] if hasattr(b, "from_array")]
 
     # ---- random data ---------------------------------------------------------------------------
     def rand_dense(self, U, shape, skew=None):
@@ -89,6 +92,8 @@ class Chains:
             ops += ["reindexed_default", "sparsity", "cube_shape"]
         if nd == 2:
             ops += ["sliced", "slices1d", "collapsed", "collapsed", "sliced"]
+        if len(self.twin_classes) > 1:
+            ops += ["eq"] * 4
         if strs:
             # collapsed sizes its output with fit_dtype(max(precedence)): integers only, by design
             ops = [o for o in ops if o != "collapsed"] + ["sparsity"]
@@ -319,14 +324,15 @@ class Chains:
         rnd = self.rnd
         D = dense_of(idx)
         r = rnd.random()
+        cls = rnd.choice(self.twin_classes)
         if r < 0.4:
-            twin = canonical(self.iindex, D, idx.common)                 # equal twin, different history
+            twin = canonical(cls, D, idx.common)                 # equal twin, different history
         elif r < 0.6:
-            twin = canonical(self.iindex, D, rnd.choice(U + [self.absent(U)]))   # same dense, maybe other common
+            twin = canonical(cls, D, rnd.choice(U + [self.absent(U)]))   # same dense, maybe other common
         elif r < 0.8 and D.size:
             D2 = D.copy()
             D2.flat[rnd.randrange(D2.size)] = rnd.choice(U)
-            twin = canonical(self.iindex, D2, idx.common)
+            twin = canonical(cls, D2, idx.common)
         else:
             twin = self.rand_index(U, idx.shape if rnd.random() < 0.7 else (idx.shape[0] + 1,) + tuple(idx.shape[1:]))
         self.rec.eq(idx, twin)
